@@ -62,6 +62,10 @@ def main():
             continue
         f = os.path.join(d, "patch.diff")
         if os.path.exists(f):
+            try:        # a seeded change may be assigned to the check of a neighbouring property (stated in its meta.json)
+                pid = json.load(open(os.path.join(d, "meta.json"))).get("checked_by", pid)
+            except Exception:
+                pass
             items.append((pid, "seeded", f, a.tier))
     rows = []
     with concurrent.futures.ThreadPoolExecutor(a.jobs) as ex:
